@@ -646,7 +646,7 @@ def _i7_by_callers(prog, f, n, slot, sc, ln, sets_len):
     return sites > 0
 
 
-def _path_avoiding(cfg, start, pred, skip_edge=None):
+def _path_avoiding(cfg, start, pred, skip_edge=None, target=None):
     """Is there a FEASIBLE path from `start` to the function exit that never passes a node satisfying pred?
     Feasibility: flag locals (only ever assigned literals) are tracked as constants along the path and branches
     on them are pruned."""
@@ -706,11 +706,13 @@ def _path_avoiding(cfg, start, pred, skip_edge=None):
                     wl.append(s2)
     seen = set()
     env0 = step_env(start, IN.get(start.id, {}))
-    work = [(s, env0) for (s, _l) in start.succs]
+    work = [(s, env0) for (s, _l) in start.succs if skip_edge is None or not skip_edge(start, _l)]
     while work:
         n, env = work.pop()
-        if n is cfg.exit:
+        if n is (target if target is not None else cfg.exit):
             return True
+        if n is cfg.exit:
+            continue
         key = (n.id, tuple(sorted(env.items())))
         if key in seen:
             continue
